@@ -44,6 +44,11 @@ func init() {
 					"if a {1} else @", "if a {1} @ {2}", "(@)", "-(@)", "a.@", "a.(@)", "a @ b", "a @@ b", "x = @", "x @ 1", "return @", "quote(@)", "unquote(@)", "len(@)", "print(@,1)", "a++@", "@++", "..@", "a => @", "a => {@}", "=> @", ") => @"} {
 					j(t, mode)
 				}
+				// long lines: error messages quote the line around the error
+				long := strings.Repeat("a", 201)
+				for _, t := range []string{"@\n" + long, ")\n" + long + "@", "f(@\n" + long + " " + long, long + " @ " + long, "x = [1,\n" + long + "@", "/* " + long + "\n" + long + " */ @", "`" + long + "\n" + long + "` @"} {
+					j(t, mode)
+				}
 				// windows over a few seed programs: one arbitrary byte at every position
 				for _, seedProg := range []string{`func f(a,b){if a<b {return a}; b}`, `m={"k":[1,2.5,"s"]}; m.k[0:1]`, `for i=3 {println(i) /* c */}` + "\n// end"} {
 					for pos := 0; pos < len(seedProg); pos++ {
@@ -61,7 +66,7 @@ func init() {
 		Reach:      []string{"errors reported", "continuation requested", "tree returned"},
 		Bounds: map[string]interface{}{"whole_input": "every byte string of length 0..2 (3 thorough), all 256 values per byte, file and line mode",
 			"contexts": "45 open prefixes (one per parse function and position) followed by 1..2 arbitrary bytes (3 thorough), also with a space before the byte and a token after it",
-			"mid_construct": "50 skeletons with 1-2 arbitrary bytes in the middle of a construct (parameter lists, map / array / call / index contents, conditions, after else, operands)", "windows":  "one arbitrary byte substituted at every other position (every position thorough) of 3 seed programs"},
+			"long_lines": "7 skeletons with lines of 200-400 bytes around one arbitrary byte (error messages quote the line)", "mid_construct": "50 skeletons with 1-2 arbitrary bytes in the middle of a construct (parameter lists, map / array / call / index contents, conditions, after else, operands)", "windows":  "one arbitrary byte substituted at every other position (every position thorough) of 3 seed programs"},
 		Outside: []string{"inputs needing more arbitrary bytes than stated beyond a listed context", "termination is shown per path: a path that needs more than 3 million SSA steps is reported as a non-termination candidate and counts when the native run of the same input does not finish within 20 s"},
 	})
 }
